@@ -29,7 +29,7 @@ import Proofs.C07
         `gen_reQuoteMeta_literal`.
   NOT proved (the PARTIAL part): that gojq's compiler/VM implement the modelled scoping, and everything
   that is not the override layer (regex engine, number formatting, the re-implemented functions' bodies:
-  tojson's encoder, fromjson via decode, debug/stderr via fq's stdio) — differential only.
+  split/2 via splits, tojson's encoder, fromjson via decode, debug/stderr via fq's stdio) — differential only.
 -/
 namespace Props.C07
 open FqModel FqModel.JqEnv Proofs.C07
@@ -206,7 +206,7 @@ def skeletonOkFor (o : Override) : Bool :=
 theorem gen_skeleton_ok : ∀ o ∈ Gen.overrides, skeletonOkFor o = true := by decide
 
 /-- For the definition environment fq really has (as far as the override layer goes): a user program's call of
-    any guarded override — explode, splits, test, match, capture, scan (each arity) — on a non-Binary input is
+    any guarded override — explode, split/1, splits, test, match, capture, scan (each arity) — on a non-Binary input is
     the gojq builtin of that name applied to the evaluated arguments. -/
 theorem gen_overrides_transparent (S : Sem) (n : Nat) (vals : List Val) (x : Val) (hx : isBinary x = false)
     (o : Override) (ho : o ∈ Gen.overrides) (hg : isGuarded o.shape = true)
@@ -235,7 +235,7 @@ theorem gen_overrides_transparent (S : Sem) (n : Nat) (vals : List Val) (x : Val
           rw [← hargs] at hs ⊢
           exact override_transparent S skelEnv n vals x c oi o.name args hs hx
 
-/-! ## split/1: `_re_quote_meta` -/
+/-! ## literal split (the Binary arm of split/1 since 2e7d2332; all of split/1 before): `_re_quote_meta` -/
 
 /-- if the class contains every RE2 metacharacter and only punctuation, the quoted string read as an RE2
     pattern is exactly the literal string -/
